@@ -136,7 +136,7 @@ theorem runFile_other {k : Nat} {f : FileDesc} {P : Prop} (ht : f.info.transferr
   | zero => intro s prio cur now ticks _ _; simp [runFile]
   | succ n ih =>
     intro s prio cur now ticks h hc
-    have key : ∀ (s1 : State) (cur1 : Option Cur), Kept k f P s1 → (∀ c, cur1 = some c → c.key ≠ k) →
+    have key : ∀ (fr : Bool) (s1 : State) (cur1 : Option Cur), Kept k f P s1 → (∀ c, cur1 = some c → c.key ≠ k) →
         let r := (if !s1.fdtQueue.isEmpty then (s1, cur1, Out.none) else
           match cur1 with
           | none => (s1, none, Out.none)
@@ -146,11 +146,15 @@ theorem runFile_other {k : Nat} {f : FileDesc} {P : Prop} (ht : f.info.transferr
             | some f =>
               if gateBlocked f now then (s1, cur1, Out.none) else
               match encRead f.nSym c.enc (canStop f && !s1.files.contains c.key) with
-              | (none, _) => runFile n (transferDoneFile s1 c.key now) prio none now ticks
+              | (none, _) =>
+
+                if fr then (transferDoneFile s1 c.key now, none, Out.none)
+
+                else runFile n (transferDoneFile s1 c.key now) prio none now ticks
               | (some (idx, b), e) => (pktStep s1 prio c.key now idx b, some { c with enc := e }, Out.pkt prio c.key idx b))
         (∀ p t i b, r.2.2 = Out.pkt p t i b → p = prio) ∧
         (r.2.2 = Out.none → Kept k f P r.1 ∧ ∀ c, r.2.1 = some c → c.key ≠ k) := by
-      intro s1 cur1 h1 hc1
+      intro fr s1 cur1 h1 hc1
       simp only []
       split
       · exact ⟨fun _ _ _ _ e => (by cases e), fun _ => ⟨h1, hc1⟩⟩
@@ -163,11 +167,17 @@ theorem runFile_other {k : Nat} {f : FileDesc} {P : Prop} (ht : f.info.transferr
           · split
             · exact ⟨fun _ _ _ _ e => (by cases e), fun _ => ⟨h1, hc1⟩⟩
             · split
-              · exact ih _ prio none now ticks (h1.done c.key now (hc1 c rfl)) (fun _ e => by cases e)
+              · cases fr with
+                | true =>
+                  simp only [if_true]
+                  exact ⟨fun _ _ _ _ e => (by cases e), fun _ => ⟨h1.done c.key now (hc1 c rfl), fun _ e => by cases e⟩⟩
+                | false =>
+                  simp only [Bool.false_eq_true, if_false]
+                  exact ih _ prio none now ticks (h1.done c.key now (hc1 c rfl)) (fun _ e => by cases e)
               · exact ⟨fun p t i b e => (by simp only [Out.pkt.injEq] at e; exact e.1.symm), fun e => (by cases e)⟩
     unfold runFile
     cases cur with
-    | some c => exact key s (some c) h hc
+    | some c => exact key false s (some c) h hc
     | none =>
       simp only []
       cases hg : getNextFile s prio now ticks with
@@ -180,11 +190,23 @@ theorem runFile_other {k : Nat} {f : FileDesc} {P : Prop} (ht : f.info.transferr
             · simp at hg; exact hg.symm
             · simp at hg
           subst this
-          exact key s' none h (fun _ e => by cases e)
+          exact key true s' none h (fun _ e => by cases e)
         | some t =>
           obtain ⟨h1, hne⟩ := h.getNextFile ht hg
-          exact key s' (some (startCur s' t)) h1 (fun c e => by
-            simp only [Option.some.injEq] at e; rw [← e]; exact hne)
+          simp only []
+          cases ho : openFailed true s' (some (startCur s' t)) with
+          | none =>
+            exact key true s' (some (startCur s' t)) h1 (fun c e => by
+              simp only [Option.some.injEq] at e; rw [← e]; exact hne)
+          | some kf =>
+            obtain ⟨k', f'⟩ := kf
+            obtain ⟨_, c, e1, e2, _, _⟩ := openFailed_some ho
+            simp only [Option.some.injEq] at e1
+            subst e1
+            have hk : k' = t := e2.symm
+            subst hk
+            simp only []
+            exact ⟨fun _ _ _ _ e => (by cases e), fun _ => ⟨h1.done k' now hne, fun _ e => by cases e⟩⟩
 
 /-! ### while an FDT instance is pending every file session yields -/
 
@@ -214,15 +236,24 @@ theorem runFile_pending (fuel : Nat) (s : State) (prio : Nat) (cur : Option Cur)
     | cons a r => rfl
   unfold runFile
   cases cur with
-  | some c => simp only [hne s h, if_true]; exact ⟨trivial, h⟩
+  | some c => simp only [openFailed_false, hne s h, if_true]; exact ⟨trivial, h⟩
   | none =>
     simp only []
     cases hg : getNextFile s prio now ticks with
     | mk s' r =>
       have h' := getNextFile_fdtQueue hg h
       cases r with
-      | none => simp only [hne s' h', if_true]; exact ⟨trivial, h'⟩
-      | some t => simp only [hne s' h', if_true]; exact ⟨trivial, h'⟩
+      | none =>
+        have ho : openFailed true s' none = none := rfl
+        simp only [ho, hne s' h', if_true]; exact ⟨trivial, h'⟩
+      | some t =>
+        simp only []
+        cases ho : openFailed true s' (some (startCur s' t)) with
+        | none => simp only [hne s' h', if_true]; exact ⟨trivial, h'⟩
+        | some kf =>
+          obtain ⟨k', f'⟩ := kf
+          simp only []
+          exact ⟨trivial, by rw [transferDoneFile_fdtQueue]; exact h'⟩
 
 theorem readQueue_pending : ∀ k s q now ticks, s.fdtQueue ≠ [] →
     (readQueue k s q now ticks).2.2 = Out.none ∧ (readQueue k s q now ticks).1.fdtQueue ≠ [] := by
